@@ -7,6 +7,7 @@ mod ops_chars;
 mod ops_dom;
 mod ops_names;
 mod ops_xml;
+mod ops_xpath;
 
 use std::io::{self, BufRead, Write};
 use std::panic;
@@ -15,13 +16,17 @@ fn dispatch(op: &str, args: &[String]) -> String {
     match op {
         "classes" => ops_chars::classes(),
         "class1" => ops_chars::class1(args),
+        "wrapper" => ops_chars::wrapper(args),
         "accept" => ops_xml::accept(args),
         "parse" => ops_xml::parse(args),
         "pipeline" => ops_xml::pipeline(args),
         "roundtrip" => ops_xml::roundtrip(args),
         "print" => ops_xml::print(args),
+        "attrs" => ops_xml::attrs(args),
         "chardata" => ops_dom::chardata(args),
         "nameok" => ops_names::nameok(args),
+        "query" => ops_xpath::query(args),
+        "qfresh" => ops_xpath::qfresh(args),
         _ => "bad-op".to_string(),
     }
 }
